@@ -149,6 +149,15 @@ def syntax_faults(r, text):
     if ms:
         m = r.choice(ms)
         yield 'property-shaped unknown setting last', text[:m.start()] + ", colour: 'red'" + text[m.start():]
+    # a settings list is  [ item (, item)* ] : no comma may lead, trail or double
+    ms = list(re.finditer(r'(?<!\[)\]', text))
+    if ms:
+        m = r.choice(ms)
+        yield 'comma after the last setting', text[:m.start()] + r.choice([',', ', ', ',\n']) + text[m.start():]
+    ms = list(re.finditer(r' \[(?!\])', text))
+    if ms:
+        m = r.choice(ms)
+        yield 'comma before the first setting', text[:m.end()] + r.choice([',', ', ']) + text[m.end():]
     ms = [i for i, l in enumerate(lines) if re.match(r'^table\b.*\{\s*$', l.strip(), flags=re.I) and not l.startswith((' ', '\t'))]
     if ms:
         i = r.choice(ms)
@@ -505,6 +514,16 @@ def run(v, tier, st, pr, pid):
                         'Table a {\n  id int [pk,' + sep + 'unique]\n}\n']:
                 cases.append(('line separator %r where a newline or blank is required' % sep, bad))
                 add_job(bad, False, 'separator', renders=False)
+        # commas of a settings list: one between two settings, nowhere else (every kind of settings list)
+        for lst in ['Table a {\n  id int [%s]\n}\n', 'Table a [%s] {\n  id int\n}\n', 'Table a {\n  id int\n  indexes {\n    id [%s]\n  }\n}\n',
+                    'Table a {\n  id int\n}\nRef: a.id > a.id [%s]\n', 'Enum e {\n  x [%s]\n}\n', 'Table a {\n  id int\n}\nTableGroup g [%s] {\n  a\n}\n']:
+            good = {'Table a {\n  id int [': ['pk', 'unique'], 'Table a [': ['headercolor: #fff', "note: 'n'"], 'Table a {\n  id int\n  indexes': ['unique', 'pk'],
+                    'Table a {\n  id int\n}\nRef': ['delete: cascade', 'update: cascade'], 'Enum': ["note: 'n'", "note: 'n'"],
+                    'Table a {\n  id int\n}\nTableGroup': ['color: #fff', "note: 'n'"]}
+            a_, b_ = next(v_ for k_, v_ in good.items() if lst.startswith(k_))
+            for bad in [a_ + ',', a_ + ', ', ',' + a_, a_ + ',,' + b_, a_ + ', ,' + b_, a_ + ',\n' , ',']:
+                cases.append(('comma that separates nothing in a settings list', lst % bad))
+                add_job(lst % bad, False, 'comma', renders=False)
         outs = pool_map(parse_impl_job, [(t, False) for _, t in cases])
         byk = {}
         for (kind, text), o in zip(cases, outs):
@@ -554,6 +573,14 @@ def run(v, tier, st, pr, pid):
                     text = tmpl % s
                 cases.append(text)
                 add_job(text, False, 'short')
+        # names (also the empty one) that are index subjects, reference endpoints and enum types at the same time
+        for s in all_strings(['a', ' ', '1', '-', '.', '_'], 2):
+            for tmpl in ['Table t {\n "%s" int\n k int\n indexes {\n "%s"\n ("%s", k) [unique]\n }\n}',
+                         'Table t {\n "%s" int [pk]\n}\nTable u {\n "%s" int [ref: > t."%s"]\n}',
+                         'Enum "%s" {\n "%s"\n}\nTable t {\n c "%s"\n}']:
+                text = tmpl.replace('%s', s)
+                cases.append(text)
+                add_job(text, False, 'short-name')
         for s in all_strings(['a', ' ', '\x0c', '\x0b', '\u2028', '\x85', '\t', '.'], 2):
             for tmpl in ['Project "%s" {\n}', 'Table t {\n id int\n}\nTableGroup "%s" {\n t\n}', 'Table "%s" {\n id int\n}', "Note n {\n '%s'\n}",
                          'Enum "%s" {\n "%s"\n}', 'Table t {\n id int [note: \'%s\']\n}']:
